@@ -48,7 +48,10 @@ var c13MePool = [2]string{"me", "me2"}
 var c13OtherPool = [3]string{"a", "b", "c"}
 
 // every nick name that can ever appear (the oracle queries all of them).
-var c13AllNicks = []string{"me", "me2", "a", "b", "c"}
+var c13AllNicks = []string{"me", "me2", "a", "b", "c", "Me", "A", "B", "a2", "b2"}
+
+// spellings of the users' own names (style CaseNicks): index 0 -> 1 is a rename that only changes the letter case
+var c13CaseNames = [c13NUsers][3]string{{"me", "Me", "me"}, {"a", "A", "a2"}, {"b", "B", "b2"}}
 
 // topics cycle: unset -> "t one" -> "t two" -> cleared.
 var c13Topics = [3]string{"", "t one", "t two"}
@@ -65,13 +68,15 @@ type c13StyleT struct {
 	Hi, Lo             byte   // mode letters of the two privileges (default o, v)
 	HiPfx, LoPfx       string // their NAMES prefixes
 	Topics             [3]string
+	Flags324           string // channel flags every channel of this network has, reported in the 324 reply
+	CaseNicks          bool   // users rename between spellings of their own name (a / A / a2) instead of sharing a pool
 }
 
 var c13Styles = []c13StyleT{
 	{Name: "default", PartMsg: " :bye", KickMsg: " :out", QuitMsg: " :gone", NickColon: true, Hi: 'o', Lo: 'v', HiPfx: "@", LoPfx: "+", Topics: c13Topics},
-	{Name: "terse-halfop", PartMsg: "", KickMsg: "", QuitMsg: "", NickColon: false, JoinCol: true, Hi: 'o', Lo: 'h', HiPfx: "@", LoPfx: "%", Topics: [3]string{"", "t one ", " t two"}},
-	{Name: "empty-reasons-admin", PartMsg: " :", KickMsg: " :", QuitMsg: " :", NickColon: true, Hi: 'a', Lo: 'v', HiPfx: "&", LoPfx: "+", Topics: [3]string{"", ":", "t  two :x"}},
-	{Name: "owner-halfop", PartMsg: " :see you later", KickMsg: " :a b c", QuitMsg: " :Quit: leaving", NickColon: true, JoinCol: true, Hi: 'q', Lo: 'h', HiPfx: "~", LoPfx: "%", Topics: c13Topics},
+	{Name: "terse-halfop", PartMsg: "", KickMsg: "", QuitMsg: "", NickColon: false, JoinCol: true, Hi: 'o', Lo: 'h', HiPfx: "@", LoPfx: "%", Topics: [3]string{"", "t one ", " t two"}, Flags324: "ps", CaseNicks: true},
+	{Name: "empty-reasons-admin", PartMsg: " :", KickMsg: " :", QuitMsg: " :", NickColon: true, Hi: 'a', Lo: 'v', HiPfx: "&", LoPfx: "+", Topics: [3]string{"", ":", "t  two :x"}, Flags324: "timrzZO"},
+	{Name: "owner-halfop", PartMsg: " :see you later", KickMsg: " :a b c", QuitMsg: " :Quit: leaving", NickColon: true, JoinCol: true, Hi: 'q', Lo: 'h', HiPfx: "~", LoPfx: "%", Topics: c13Topics, Flags324: "sp", CaseNicks: true},
 }
 
 // c13Style is the style of the session being run (one session at a time per worker process).
@@ -104,6 +109,9 @@ type ircNet struct {
 func newIrcNet() *ircNet { return &ircNet{Name: [c13NUsers]uint8{0, 0, 1}} }
 
 func (n *ircNet) Nick(u int) string {
+	if c13Style.CaseNicks {
+		return c13CaseNames[u][n.Name[u]]
+	}
 	if u == 0 {
 		return c13MePool[n.Name[0]]
 	}
@@ -496,7 +504,7 @@ func (n *ircNet) Answer(req string) []string {
 			return []string{fmt.Sprintf(":%s 403 %s %s :No such channel", c13Srv, me, f[1])}
 		}
 		ch := &n.Ch[c]
-		modes, args := "+", ""
+		modes, args := "+"+c13Style.Flags324, ""
 		if ch.N {
 			modes += "n"
 		}
